@@ -660,6 +660,13 @@ class Machine:
             raise Unsupported("external function without contract: %s" % name)
         return self.run(f, args, ())
 
+    @staticmethod
+    def _last_pos(ins):
+        for I in reversed(ins):
+            if I.get('pos'):
+                return I['pos']
+        return None
+
     def call_value(self, fv, args):
         if isinstance(fv, Closure):
             c = self.contracts.get(fv.fn)
@@ -705,6 +712,8 @@ class Machine:
         prev = -1
         fname = f['name']
         visits = {}
+        prev_fn = getattr(self, 'cur_fn', None)
+        self.cur_fn = fname
         try:
             while True:
                 ins = b['instrs']
@@ -739,6 +748,8 @@ class Machine:
                                 raise UnwindExceeded("%s block %d" % (fname, key))
                             if self.branch_log is not None:
                                 self.branch_log.append((fname, b['i'], I.get('pos'), c))
+                            self.cur_pos = I.get('pos') or self._last_pos(ins)
+                            self.cur_fn = fname
                             c = self.ctx.branch(c, (fname, b['i']))
                         prev = b['i']
                         b = blocks[b['succs'][0 if c else 1]]
@@ -758,6 +769,7 @@ class Machine:
                     raise Unsupported("fell off block in %s" % fname)
         finally:
             self.depth -= 1
+            self.cur_fn = prev_fn
 
 
 # ------------------------------------------------------------------ instruction handlers
